@@ -9,6 +9,13 @@ def repo_commits(prefix):
     return [l.split()[0] for l in out.splitlines() if l.split(" ", 1)[1].startswith(prefix)]
 
 CLAIMS = {
+    "C05": dict(
+        level="exploration",
+        technique="model-based stateful property testing of real clocks through the renderer (clock integrator model, event-buffer prediction) plus schedule enumeration of ClockHandle::time() against the audio thread's stores through hook points H1 (baton-passing between two real threads)",
+        text="Part A: histories of up to four clocks (three speed units, speed tweens incl. ones scheduled on other clocks, start / pause / stop / drop) with sound starts, parameter tweens and resumes scheduled for whole and fractional clock times are rendered with generated buffer sizes and callback partitions; time()/ticking() must equal speed x elapsed audio time (1e-9) and every event must begin in exactly the internal buffer in which the model clock reaches its time (or be cancelled when the clock is gone). Part B: for every (callback, time() read) pair the harness fixes the order of the reader's two loads and the audio thread's two stores (all six orders; the two straddling orders are a known finding and are excluded from the search but replayed as witnesses); every read must be a published clock value and reads must not go backwards. Search with shrinking; part B enumerates all orders per pair but not all pair sequences.",
+        note="Part B owns the schedule only at the four hook points (sequentially consistent atomics, so these are the only observable orders of one read against one publication). Speed tweens are linear.",
+        design="5/C05",
+    ),
     "C08": dict(
         level="exploration",
         technique="model-based stateful property testing: accounting model of every resource pool run alongside a real AudioManager over generated create / drop / finish / callback histories, probe destructors recording where resources die, plus slot-reuse scenarios for stale ids",
